@@ -28,7 +28,7 @@ L = "Teakra.Lock."
 C = "Teakra.Conc."
 THEOREMS = [L + t for t in [
     "conflict_iff", "findRaces_sound", "findRace_none_iff", "edgesForward_sound",
-    "table_checks", "analysis_closed", "race_free_partial", "lock_order_acyclic", "entries_classified",
+    "table_checks", "analysis_closed", "race_free_partial", "race_free_holds", "lock_order_acyclic", "entries_classified",
     "initOnly_never_written", "actions_justified",
     "race_witness_disable_interrupt", "race_witness_icu_vector_low", "race_witness_icu_vector_high",
     "race_witness_icu_vector_context_switch", "racy_fields_golden", "race_free_golden_false",
@@ -38,7 +38,7 @@ THEOREMS = [L + t for t in [
     "handler_triggers", "latchSet_sets", "send_signals", "send_signals_returned", "latch_kept",
     "latch_exchange_lossless", "exchange_idle", "exchange_once", "semSet_is_sequential", "semMask_is_sequential",
     "run_reachable", "signal_accounting", "ready_by_enabled_send_signalled", "enabled_window_sends_raise",
-    "ready_window_polls_true", "wakeInv_reachable", "enable_then_poll_never_loses_wakeup", "enable_then_poll_never_loses_wakeup'",
+    "ready_window_polls_true", "wakeInv_reachable", "enable_then_poll_never_loses_wakeup",
     "poll_returned_outcome", "stepSplit_back_to_back", "split_send_loses_wakeup", "split_send_loses_wakeup_flag1",
     "wake_poll_false_irq_raised", "wake_poll_true_no_irq"]]
 TRUSTED = [
